@@ -429,3 +429,47 @@ theorem setURLStep_insync (ls : List LState) (i : Nat) (rq : SetReq) (f : Fetch)
           simp only [he, hfl]; exact this
 
 end AGH.C15
+
+namespace AGH.C15
+open AGH AGH.Bytes
+
+theorem splitOn_joinLines : ∀ (ks : List Bytes), (∀ k ∈ ks, nl ∉ k) →
+    splitOn nl (joinLines ks) = ks ++ [[]] := by
+  intro ks
+  induction ks with
+  | nil => intro _; simp [joinLines, splitOn]
+  | cons k ks ih =>
+    intro h
+    have hk := h k (by simp)
+    have hj : joinLines (k :: ks) = k ++ nl :: joinLines ks := rfl
+    rw [hj, splitOn_splitNL, splitNL_join k _ hk]
+    simp only [if_true, List.cons_append]
+    rw [ih (fun k' hk' => h k' (by simp [hk']))]
+
+theorem specLines_facts (src : Bytes) : ∀ k ∈ specLines src,
+    trimSpace k = k ∧ isContent k = true ∧ nl ∉ k := by
+  intro k hk
+  simp only [specLines, List.mem_filter, List.mem_map] at hk
+  obtain ⟨⟨l, hl, rfl⟩, hc⟩ := hk
+  refine ⟨trimSpace_idem l, hc, ?_⟩
+  intro hm
+  exact splitOn_no_sep nl src l hl ((trimSpace_sub l).subset hm)
+
+/-- The rule lines of a normal form are the lines it was built from. -/
+theorem specLines_joinLines (ks : List Bytes)
+    (h : ∀ k ∈ ks, trimSpace k = k ∧ isContent k = true ∧ nl ∉ k) :
+    specLines (joinLines ks) = ks := by
+  unfold specLines
+  rw [splitOn_joinLines ks (fun k hk => (h k hk).2.2)]
+  rw [List.map_append, List.filter_append]
+  have h1 : ks.map trimSpace = ks := by
+    conv => rhs; rw [← List.map_id ks]
+    apply List.map_congr_left
+    intro k hk; simpa using (h k hk).1
+  rw [h1]
+  have h2 : ks.filter isContent = ks := by
+    rw [List.filter_eq_self]; intro k hk; exact (h k hk).2.1
+  rw [h2]
+  simp [trimSpace, isContent]
+
+end AGH.C15
